@@ -50,7 +50,12 @@ def mk_scn(rng: random.Random, unauthorised: str = "") -> dict:
             beh["self_steps"] = {str(t): t + sb for t in range(0, 64)}
         sims.append({"sid": sid, "type": b_type, "path": [], "entities": ["e0"], "ins": ins, "outs": {},
                      "beh": beh})
-        conns.append({"src": "A", "se": ents_a[0], "sa": "o", "dst": sid, "de": "e0", "da": "i", "async": True})
+        c = {"src": "A", "se": ents_a[0], "sa": "o", "dst": sid, "de": "e0", "da": "i", "async": True}
+        if rng.random() < 0.3:
+            # time-shifted data-flow + async_requests in one connect(): the ordering is still zero-delay
+            c["shift"] = rng.randint(1, 2)
+            c["init"] = f"init:A.{ents_a[0]}.o"
+        conns.append(c)
     if rng.random() < 0.5:
         sims.append({"sid": "X", "type": "time-based", "path": [], "entities": ["e0"], "ins": {"i": "nontrigger"},
                      "outs": {"o": "persistent"}, "beh": {"seed": 5, "sizes": [rng.choice([1, 2])]}})
@@ -141,6 +146,10 @@ def run_slice(job: dict) -> dict:
             continue
         for v in judge(scn, tr, a):
             viol(v, scn, sched, tr)
+        for v in a.viol["C01"]:
+            # an agent must not run its step at t before the controlled simulator's step at t is done
+            # (async_requests makes the connection a zero-delay dependency whatever its data delay)
+            viol(dict(v, kind="agent_not_synchronised_" + v["kind"]), scn, sched, tr)
         if a.stats.get("set_data_values") and tr["stats"]["max_inflight_sims"] >= 2:
             res["hashes"].add(H(scn_hash(scn), order_hash(tr["events"])) % (1 << 52))
         if len(res["samples"]) < 2 and i % 97 == 0 and a.stats.get("set_data_values"):
@@ -159,6 +168,7 @@ def replay(rep: dict) -> List[dict]:
     tr = run_case(r["scn"], dict(r["sched"]))
     a = Analysis(r["scn"], tr)
     out = judge(r["scn"], tr, a)
+    out += [dict(x, kind="agent_not_synchronised_" + x["kind"]) for x in a.viol["C01"]]
     v = rep["violation"]
     if v["kind"].startswith("unauthorised") and tr["outcome"]["kind"] == "ok":
         out.append(v)
